@@ -1130,6 +1130,89 @@ func opSummaries(h *Hist) {
 	h.heapCheck()
 }
 
+// replaceIntermediate swaps a container on a tree-form path for a new one of the same shape, through the container that holds
+// it (not through the root): the path still resolves, but to other containers from that point on. What the root remembers
+// about the path must not survive it. The slot the path continues through gets a fresh value (a derived structure when the
+// history has them), every other slot keeps what the old container had.
+func (h *Hist) replaceIntermediate(root *Node, path []seg) {
+	lvl := 1 + h.d.Draw("replace-level", len(path)-1) // the container reached after lvl segments is replaced (lvl >= 1)
+	holder := root
+	for i := 0; i < lvl-1; i++ {
+		v, ok := child(holder, path[i])
+		if !ok || !v.isRef() {
+			return
+		}
+		holder = v.N
+	}
+	oldV, ok := child(holder, path[lvl-1])
+	if !ok || !oldV.isRef() || holder.Impl == nil || holder.Derived > 0 && !h.derivedOK {
+		return
+	}
+	old := oldV.N
+	h.begin("ReplaceIntermediate", h.ownerOf(holder)...)
+	r := h.newNode(old.IsObj, "ReplaceIntermediate")
+	fresh := func() (any, MVal) {
+		if h.derivedOK && h.d.Draw("replace-derived", 2) == 0 {
+			d := h.newNode(true, "NewDerived")
+			d.Derived = 1
+			d.Name = "DO" + strconv.Itoa(d.ID)
+			o := NewDObject("fresh", r.ID)
+			d.Fields["fresh"] = mInt(r.ID)
+			h.bind(d, o)
+			return o, mRef(d)
+		}
+		m := mString("replaced-" + strconv.Itoa(r.ID))
+		return m.goValue(), m
+	}
+	var impl any
+	if old.IsObj {
+		o := at.NewObject()
+		for _, k := range old.keys() {
+			v := old.Fields[k]
+			gv := v.goValue()
+			if lvl < len(path) && !path[lvl].isIdx && path[lvl].key == k {
+				gv, v = fresh()
+			}
+			o.Set(k, gv)
+			r.Fields[k] = v
+		}
+		impl = o
+	} else {
+		l := at.NewList()
+		for i, v := range old.Elems {
+			gv := v.goValue()
+			if lvl < len(path) && path[lvl].isIdx && path[lvl].idx == i {
+				gv, v = fresh()
+			}
+			l.Add(gv)
+			r.Elems = append(r.Elems, v)
+		}
+		impl = l
+	}
+	h.bind(r, impl)
+	h.touch(holder)
+	s := path[lvl-1]
+	p, msg := h.call(func() {
+		if s.isIdx {
+			holder.list().Replace(s.idx, impl)
+		} else {
+			holder.object().Set(s.key, impl)
+		}
+	})
+	h.tracef("%s: the container at %s replaced by %s through %s", root.Name, renderPath(path[:lvl]), r.Name, holder.Name)
+	if !h.mustNotPanic(p, msg) {
+		return
+	}
+	if s.isIdx {
+		holder.Elems[s.idx] = mRef(r)
+	} else {
+		holder.Fields[s.key] = mRef(r)
+	}
+	h.aliased = true
+	h.counters["probe:sandwich-intermediate-replaced"]++
+	h.heapCheck()
+}
+
 // (filled by init: histOps itself refers to opSandwich)
 var histOpsRef []histOp
 
@@ -1238,6 +1321,16 @@ func opSandwich(h *Hist) {
 			target = below[h.d.Draw("sandwich-below", len(below))]
 			h.counters["probe:sandwich-nested-modified"]++
 		}
+	}
+	if obs.name == "GetTF" && len(h.lastPath) >= 2 && h.d.Draw("sandwich-replace-intermediate", 2) == 0 && h.room() {
+		h.replaceIntermediate(n, h.lastPath)
+		h.force = n
+		if !h.dead && n.Impl != nil {
+			h.repeatPath = h.lastPath
+			obs.f(h)
+			h.repeatPath = nil
+		}
+		return
 	}
 	h.force = target
 	if target != n {
